@@ -623,7 +623,11 @@ func (w *heightsWorld) absorb(mi msgInfo) {
 				if ps.IsComplete() {
 					b, err := heightsDecodeBlock(ps)
 					if err != nil {
-						w.t.Fatalf("cannot decode own block: %v", err)
+						// the node proposed something that is not a block: a fact for the trace spec (P1), the run goes on
+						delete(w.pending, key)
+						w.ownBlocks = append(w.ownBlocks, map[string]interface{}{"v": name, "h": msg.Height, "lch": int64(-1), "lcr": -1,
+							"lcfor": "undecodable", "flags": map[string]string{"-": "-"}, "sigok": false, "size": -1})
+						break
 					}
 					k := w.pshName[key]
 					w.blocks[k] = &heightsBlock{name: name, h: msg.Height, block: b, parts: ps}
@@ -739,6 +743,9 @@ func (w *heightsWorld) projVS(vs *types.VoteSet, vals *types.ValidatorSet, h int
 		sort.Strings(cands)
 		for i, v := range vals.Validators {
 			nm := w.addrName[v.Address.String()]
+			if i >= vs.Size() {
+				continue // the vote set is over another validator set than the one the state names: what can be seen is logged
+			}
 			if vt := vs.GetByIndex(int32(i)); vt != nil {
 				votes[nm] = w.nameOfBlockID(vt.BlockID, h)
 				if vt.Height != vs.GetHeight() || vt.Round != vs.GetRound() || tmproto.SignedMsgType(vs.Type()) != vt.Type {
